@@ -2130,8 +2130,10 @@ class MultiUserChannelMatrixExtInt(  # pylint: disable=R0904
     @property
     def H_no_ext_int(self) -> np.ndarray:
         """Get method for the H_no_ext_int property."""
-        # Call H property get method of the base class
-        H = MultiUserChannelMatrix.H.fget(self)  # type: ignore
+        # The H property already applies the path loss (if there is any) to
+        # the first self.K rows. We only drop the columns corresponding to
+        # the external interference sources.
+        H = self.H
         return H[:self.K, :self.K]
 
     def corrupt_data(  # type: ignore
